@@ -88,7 +88,7 @@ m = {
         'kind_free_text': 'Go harness: parent spawns child processes per scenario batch (GOMAXPROCS rotated, timeout -s QUIT), children drive the real library under seeded hook perturbation and run oracles (order chain, conservation, porcupine linearizability, reference models, goroutine-dump leak filter, race detector for C11)',
     }],
     'checks': checks,
-    'notes': 'Entry point ./check <id> <quick|thorough>; VERIF_SEED selects the PRNG seed; exit 0 held / 1 VIOLATION / 2 harness error or observed nothing. KNOWN_FINDINGS.txt lists recorded findings and fixed defects.',
+    'notes': 'Entry point ./check <id> <quick|thorough>; VERIF_SEED selects the PRNG seed; exit 0 held / 1 VIOLATION / 2 harness error or observed nothing. KNOWN_FINDINGS.txt lists recorded findings and fixed defects (fix commits in /repo: 30c3f5b, 49ec4b8, 82626f4, 1f1f52e, b0fbace, e2030ae, 3c978d0; hook commit 2f55ca1).',
     'not_applicable': na,
 }
 json.dump(m, open(os.path.join(V, 'MANIFEST.json'), 'w'), indent=1)
